@@ -32,6 +32,34 @@ class LooseMatcher(TimestampMatcherBase):
         return [LOOSE]
 
 
+AMPM = (r'^(?P<year>\d{4})-(?P<month>\d{2})-(?P<day>\d{2}) '
+        r'(?P<h12>\d{2}):(?P<minutes>\d{2}):(?P<seconds>\d{2}) (?P<ampm>AM|PM)')
+NOSEC = (r'^(?P<year>\d{4})-(?P<month>\d{2})-(?P<day>\d{2}) (?P<hours>\d{2})h(?P<minutes>\d{2})\b')
+
+
+class AmPmMatcher(TimestampMatcherBase):
+    """ hours derived by an override property that returns an int (0 for 12 AM) """
+    @property
+    def patterns(self):
+        return [AMPM]
+
+    @property
+    def hours(self):
+        h = int(self.result.group('h12')) % 12
+        return h + 12 if self.result.group('ampm') == 'PM' else h
+
+
+class NoSecMatcher(TimestampMatcherBase):
+    """ a format without seconds: the override property supplies the int 0 """
+    @property
+    def patterns(self):
+        return [NOSEC]
+
+    @property
+    def seconds(self):
+        return 0
+
+
 class StdMatcher(TimestampMatcherBase):
     """ one pattern, every field read straight from the match """
     @property
@@ -58,8 +86,9 @@ class DerivedMatcher(TimestampMatcherBase):
 
 
 MATCHERS = {'std': StdMatcher, 'multi': MultiMatcher, 'derived': DerivedMatcher,
-            'loose': LooseMatcher}
-_PATTERNS = {'std': [STD], 'multi': [BRK, STD], 'derived': [USYY], 'loose': [LOOSE]}
+            'loose': LooseMatcher, 'ampm': AmPmMatcher, 'nosec': NoSecMatcher}
+_PATTERNS = {'std': [STD], 'multi': [BRK, STD], 'derived': [USYY], 'loose': [LOOSE], 'ampm': [AMPM],
+             'nosec': [NOSEC]}
 DATE_FORMAT = '%Y-%m-%d %H:%M:%S'
 
 
@@ -84,10 +113,14 @@ def oracle_ts_full(kind, text):
             g = m.groupdict()
             year = int('20' + g['yy']) if 'yy' in g else int(g['year'])
             mlen = len(text[:m.end()].encode('utf-8'))
+            if 'h12' in g:
+                hours = int(g['h12']) % 12 + (12 if g['ampm'] == 'PM' else 0)
+            else:
+                hours = int(g['hours'])
+            seconds = int(g['seconds']) if 'seconds' in g else 0
             try:
                 return datetime(year, int(g['month']), int(g['day']),
-                                int(g['hours']), int(g['minutes']),
-                                int(g['seconds'])), mlen
+                                hours, int(g['minutes']), seconds), mlen
             except (ValueError, OverflowError):
                 return None, 0
     return None, 0
@@ -95,6 +128,12 @@ def oracle_ts_full(kind, text):
 
 def fmt_ts(kind, dt, rng=None):
     """ Render dt in a form the matcher `kind` recognises. """
+    if kind == 'ampm':
+        h12 = dt.hour % 12 or 12
+        return dt.strftime('%Y-%m-%d ') + f"{h12:02d}" + dt.strftime(':%M:%S ') + \
+            ('PM' if dt.hour >= 12 else 'AM')
+    if kind == 'nosec':
+        return dt.strftime('%Y-%m-%d %Hh%M')
     if kind == 'derived':
         return dt.strftime('%m/%d/') + f"{dt.year % 100:02d}" + dt.strftime(' %H:%M:%S')
     if kind == 'multi' and rng is not None and rng.random() < 0.5:
